@@ -1387,3 +1387,15 @@ def builds_error(F, c):
         return True
     fn = F.fns.get(c.target)
     return bool(fn) and fn.get('output') == 'core::NErr'
+
+
+def scope_constructors(F):
+    """crate functions that build a child environment: they return Rc<RefCell<Env>> and take the parent environment
+    (Env::with_parent today; a second constructor added by a refactoring is picked up automatically)"""
+    out = set()
+    for p_, f in F.fns.items():
+        if f.get('output') == 'std::rc::Rc<std::cell::RefCell<core::Env>>' and any('core::Env' in str(i) for i in f.get('inputs', [])) \
+                and p_.startswith('core::Env::'):
+            out.add(p_)
+    out.add('core::Env::with_parent')
+    return out
